@@ -63,7 +63,20 @@ Theorem obj_rt : forall (c : cfg) (ivs : list bytes) (siv : bytes) (o : dobj) (s
 Proof. exact obj_rt_l. Qed.
 Print Assumptions obj_rt.
 
+(* the encryption traversal is defined on the RENDERED value: for objects of any type A with any rendering
+   function (pdf.TextString, pdf.Date, user-defined Objects whose AsPDF yields strings, arrays or dictionaries
+   with strings), what comes back is the list of strings of the rendering *)
+Theorem obj_rt_rendered : forall (A : Type) (render : A -> native) (c : cfg) (ivs : list bytes) (siv : bytes)
+    (r : oref) (sh sh' : shape) (o : A) (stream : option (list bytes)),
+  obj_ok c ivs siv (dobj_of render r sh o stream) ->
+  read_obj c r sh' (write_obj c ivs siv (dobj_of render r sh o stream))
+  = Ok (strings_of (render o), option_map (@concat _) stream).
+Proof. exact obj_rt_rendered_l. Qed.
+Print Assumptions obj_rt_rendered.
+
 (* hypotheses are satisfiable *)
+Example ex_strings_of : strings_of (NvArr [NvStr [65]%N; NvDict [(1%N, NvStr [66]%N); (2%N, NvOther)]; NvArr [NvStr []]]) = [[65]; [66]; []]%N.
+Proof. reflexivity. Qed.
 Example ex_ordinary :
   let di := {| di_meta := Some (5, 0)%N; di_xref := Some (9, 0)%N; di_containers := [(7, 0)%N]; di_members := [(3, 0)%N]; di_identity := [(8, 0)%N] |} in
   ordinary di (6, 0)%N = true /\ kind_of di (6, 0)%N ShMetadataXML = KDirect /\ kind_of di (5, 0)%N ShPlain = KMetadata.
